@@ -63,7 +63,7 @@ class Layout:
     def real(self, s):
         for path, tok in self.tokens:
             # "$ES/data" is below the ES home, "$ES-data" / "$ES.data0" are SIBLINGS whose name starts with the name of the ES home
-            if s.startswith(tok) and (len(s) == len(tok) or not (s[len(tok)].isalnum() or s[len(tok)] == "_")):
+            if s.startswith(tok) and (len(s) == len(tok) or not s[len(tok)].isalnum()):
                 return path + s[len(tok) :]
         return s
 
